@@ -241,7 +241,7 @@ Bytes encode_fits(const TableSpec &t) {
 	Bytes out;
 	std::vector<std::string> h;
 	h.push_back(card_logical("SIMPLE", true, "file does conform to FITS standard"));
-	h.push_back(card_int("BITPIX", t.double_image ? -64 : -32, "number of bits per data pixel"));
+	h.push_back(card_int("BITPIX", t.image_bitpix ? t.image_bitpix : t.double_image ? -64 : -32, "number of bits per data pixel"));
 	h.push_back(card_int("NAXIS", t.ndim, "number of data axes"));
 	for (uint32_t i = 0; i < t.ndim; i++)
 		h.push_back(card_int("NAXIS" + std::to_string(i + 1), (long long)t.naxes[t.ndim - 1 - i], "length of data axis " + std::to_string(i + 1)));
@@ -258,7 +258,10 @@ Bytes encode_fits(const TableSpec &t) {
 	for (auto &e : t.aux)
 		h.push_back(e.literal ? card_literal(e.key, e.value, e.comment) : card_string(e.key, e.value, e.comment));
 	put_header(out, h);
-	if (t.double_image) for (float f : t.coeff) { double dv = (double)f; uint64_t u; memcpy(&u, &dv, 8); put_be64(out, u); }
+	if (t.image_bitpix == 8) for (float f : t.coeff) out.push_back((uint8_t)(std::isfinite(f) ? (long)std::fabs(f) % 200 : 0));
+	else if (t.image_bitpix == 16) for (float f : t.coeff) { long v = std::isfinite(f) ? (long)f % 30000 : 0; uint16_t u = (uint16_t)(int16_t)v; out.push_back((uint8_t)(u >> 8)); out.push_back((uint8_t)u); }
+	else if (t.image_bitpix == 32) for (float f : t.coeff) { long v = std::isfinite(f) ? (long)f % 1000000 : 0; put_be32(out, (uint32_t)(int32_t)v); }
+	else if (t.double_image) for (float f : t.coeff) { double dv = (double)f; uint64_t u; memcpy(&u, &dv, 8); put_be64(out, u); }
 	else for (float f : t.coeff) { uint32_t u; memcpy(&u, &f, 4); put_be32(out, u); }
 	pad_block(out, 0);
 
